@@ -56,14 +56,18 @@ deriving Repr, BEq, DecidableEq
 
 structure CN where
   -- transport
+  coal : Bool := false       -- the transport hands over its last bytes together with the EOF / error
+                             -- (`n > 0, err ≠ nil`: allowed by io.Reader, done by crypto/tls)
   inbox : List Bytes := []   -- fragments delivered by the peer, not yet read (one per Read)
   eof : Bool := false        -- peer closed its side
   rerr : Bool := false       -- transport read error pending
   closed : Bool := false     -- rwc.Close() was called
+  tfail : Bool := false      -- a transport Read failed with a timeout
   -- reader
   rbuf : Bytes := []         -- bufio contents
   reader : RPc := .idle
   src : RSrc := .rwc          -- liveSwitchReader.r
+  rEnd : Option Bool := none -- bufio's stored error (some true: an error, some false: EOF)
   pending : Bool := false    -- sr.pr / sr.pipeCopyF set, copier not started yet
   -- pipe and copier
   pipeData : Bytes := []     -- chunk the copier is writing, not yet consumed
@@ -71,6 +75,7 @@ structure CN where
   pipeErr : Bool := false    -- ... with an error other than EOF
   pipeR : Bool := false      -- read side closed (sr.stop)
   copier : CPc := .notStarted
+  cEnd : Option Bool := none -- io.Copy saw the end of the source together with its last chunk
   -- close notification
   chan : Chan := .none
   gone : Bool := false       -- c.clientGone
@@ -87,6 +92,7 @@ inductive CEv where
   | deliver (b : Bytes)
   | peerEof
   | readErr
+  | readTimeout         -- the transport Read in progress fails with a timeout (`Server.ReadTimeout`)
   | localClose
   | requestCN           -- CloseNotify() from anywhere (a handler, another goroutine, after the end)
   | handlerReturn
@@ -122,8 +128,13 @@ def endReport (isErr : Bool) (rbuf : Bytes) : Bool :=
 def CN.readFrom (s : CN) (src : RSrc) : CN :=
   match src with
   | .rwc =>
+    match s.rEnd with
+    | some e => s.terminate (endReport e s.rbuf)
+    | none =>
     if s.closed then s.terminate true
-    else if ¬ s.inbox.isEmpty then { s with rbuf := s.rbuf ++ s.inbox.headD [], inbox := s.inbox.tail, reader := .idle }
+    else if ¬ s.inbox.isEmpty then
+      { s with rbuf := s.rbuf ++ s.inbox.headD [], inbox := s.inbox.tail, reader := .idle,
+               rEnd := if s.coal && s.inbox.tail.isEmpty && (s.rerr || s.eof) then some s.rerr else none }
     else if s.rerr || s.eof then s.terminate (endReport s.rerr s.rbuf)
     else { s with reader := .blocked .rwc }
   | .pipe =>
@@ -137,6 +148,15 @@ def CN.step (d : DictFn) (s : CN) : CEv → Option CN
     else some { s with inbox := s.inbox ++ [b], sent := s.sent ++ b }
   | .peerEof => if s.closed || s.eof || s.rerr then none else some { s with eof := true }
   | .readErr => if s.closed || s.eof || s.rerr then none else some { s with rerr := true }
+  | .readTimeout =>
+    -- the transport Read in progress (the reader's, or the copier's) returns a timeout error:
+    -- any failed Read ends the connection
+    if s.inbox.isEmpty ∧ ¬ (s.closed || s.eof || s.rerr) then
+      if s.reader = .blocked .rwc then some (CN.terminate { s with tfail := true } true)
+      else if s.copier = .reading then
+        some (CN.notify { s with tfail := true, copier := .exited, pipeW := true, pipeErr := true })
+      else none
+    else none
   | .localClose => if s.closed then none else some { s with closed := true }
   | .requestCN =>
     match s.chan with
@@ -172,12 +192,17 @@ def CN.step (d : DictFn) (s : CN) : CEv → Option CN
     match s.copier with
     | .reading =>
       if s.closed then some (CN.notify { s with copier := .exited, pipeW := true, pipeErr := true })
-      else if ¬ s.inbox.isEmpty then some { s with copier := .writing, pipeData := s.inbox.headD [], inbox := s.inbox.tail }
+      else if ¬ s.inbox.isEmpty then
+        some { s with copier := .writing, pipeData := s.inbox.headD [], inbox := s.inbox.tail,
+                      cEnd := if s.coal && s.inbox.tail.isEmpty && (s.rerr || s.eof) then some s.rerr else none }
       else if s.rerr || s.eof then some (CN.notify { s with copier := .exited, pipeW := true, pipeErr := s.rerr })
       else none
     | .writing =>
       if s.pipeR then some (CN.notify { s with copier := .exited, pipeW := true, pipeErr := true, pipeData := [] })
-      else if s.pipeData.isEmpty then some { s with copier := .reading }
+      else if s.pipeData.isEmpty then
+        (match s.cEnd with
+         | some e => some (CN.notify { s with copier := .exited, pipeW := true, pipeErr := e })
+         | none => some { s with copier := .reading })
       else none
     | _ => none
 
@@ -193,7 +218,7 @@ def CN.quiescent (d : DictFn) (s : CN) : Bool :=
 
 /-- the connection is gone: the peer closed, the transport failed, it was closed locally, or
     the reader loop ended -/
-def CN.terminated (s : CN) : Bool := s.closed || s.eof || s.rerr || s.reader = .exited
+def CN.terminated (s : CN) : Bool := s.closed || s.eof || s.rerr || s.tfail || s.reader = .exited
 
 /-- run internal steps until quiescent (reader first, then copier); `fuel` bounds the loop -/
 def CN.settle (d : DictFn) : Nat → CN → CN
